@@ -842,3 +842,71 @@ for _k, _nq, _nt, _doc in _LARGE:
              doc=_doc + "; every size inside each case, inputs expanded from a few integers, arguments in generated memory "
                         "layouts; == documented formula in NumPy float64 (+ convexity for the single-head flavours)",
              required_classes=["%s=%d" % (_k, n) for n in _req])(_large_check)
+
+
+# ------------------------------------------------------------------ a value shared by several queries, masked for only some of them
+
+
+@st.composite
+def _shared_value_case(draw, tier):
+    N, Lk, Lq = draw(st.integers(1, 2)), draw(st.integers(2, 5)), draw(st.integers(2, 4))
+    Q, D = draw(st.integers(1, 3)), draw(st.integers(1, 2))
+    return {
+        "N": N, "Lk": Lk, "Lq": Lq, "Q": Q, "D": D,
+        "q_vals": draw(_ints(N * Lq * Q, -2 * PQ, 2 * PQ)), "k_vals": draw(_ints(N * Lk * Q, -2 * PQ, 2 * PQ)),
+        "v_vals": draw(st.lists(st.integers(-512, 512), min_size=N * Lk * D, max_size=N * Lk * D, unique=True)),
+        # per query: how many leading positions it keeps (a causal-style mask that differs between queries)
+        "keep": draw(st.lists(st.integers(1, Lk), min_size=N * Lq, max_size=N * Lq)),
+        "garbage": draw(st.sampled_from(["inf", "-inf", "nan", 3e38])),
+        "multi": draw(st.booleans()), "dtype": draw(st.sampled_from(["float32", "float64"])),
+    }
+
+
+@subcheck("C20", "shared_value_partial_mask", _shared_value_case, 300, 5000,
+          doc="transformer layout - key/value (N, Lk, 1, .) shared by Lq queries, mask (N, Lk, Lq) differing per query: a position "
+              "kept by some queries and masked by others is overwritten with inf / NaN / 3e38 in the shared value; the outputs of the "
+              "queries that mask it must not change (single-head dot-product and multi-headed)",
+          required_classes=["position_masked_for_some_queries_only", "multi"])
+def _shared_value_check(case):
+    import numpy as np
+    import torch
+    from pydrobert.torch.modules import DotProductSoftAttention, MultiHeadedAttention
+
+    N, Lk, Lq, Q, D, dtype = case["N"], case["Lk"], case["Lq"], case["Q"], case["D"], case["dtype"]
+    q = np.array(case["q_vals"], dtype=np.float64).reshape(N, Lq, Q) / PQ
+    k = np.array(case["k_vals"], dtype=np.float64).reshape(N, Lk, 1, Q) / PQ
+    v = np.array(case["v_vals"], dtype=np.float64).reshape(N, Lk, 1, D) / VQ
+    keep = np.array(case["keep"]).reshape(N, 1, Lq)
+    m = np.arange(Lk).reshape(1, Lk, 1) < keep                       # (N, Lk, Lq)
+    single = DotProductSoftAttention(Q, 1, 0.5)
+    classes = [dtype]
+    if case["multi"]:
+        att = MultiHeadedAttention(Q, Q, D, 1, single, bias_WQ=False, bias_WK=False, bias_WV=False, bias_WC=False)
+        with torch.no_grad():
+            for name in ("WQ", "WK", "WV", "WC"):
+                lin = getattr(att, name)
+                lin.weight.copy_(torch.eye(lin.weight.shape[0], lin.weight.shape[1]))
+        classes.append("multi")
+    else:
+        att = single
+    att = att.to(getattr(torch, dtype))
+    clean = att(_t(q, dtype), _t(k, dtype), _t(v, dtype), _t(m, dtype)).detach().double().numpy()    # (N, Lq, D)
+    g = {"inf": np.inf, "-inf": -np.inf, "nan": np.nan}.get(case["garbage"], case["garbage"])
+    partial = False
+    for n in range(N):
+        kept_by = m[n].sum(axis=1)                                   # per position: number of queries keeping it
+        for t in range(Lk):
+            if 0 < kept_by[t] < Lq:
+                partial = True
+                v2 = v.copy()
+                v2[n, t, 0, :] = g
+                out = att(_t(q, dtype), _t(k, dtype), _t(v2, dtype), _t(m, dtype)).detach().double().numpy()
+                for i in range(Lq):
+                    if not m[n, t, i]:
+                        ok = np.allclose(out[n, i], clean[n, i], rtol=1e-5, atol=1e-5 * (1 + np.abs(v).max()), equal_nan=False)
+                        require(bool(ok), "output of query %d (batch %d) changed when the value at position %d - masked for this "
+                                "query, kept by others - was overwritten with %r" % (i, n, t, case["garbage"]),
+                                out[n, i].tolist(), clean[n, i].tolist())
+    if partial:
+        classes.append("position_masked_for_some_queries_only")
+    return Info(nontrivial=partial, classes=classes)
